@@ -193,6 +193,43 @@ func (p *Program) verifyFunc(t *target) (vc *VC, rep *FuncReport) {
 	for _, rq := range c.Requires {
 		x.assume(st, pre.boolean(rq.Expr))
 	}
+	// interface contracts this function implements: their requires are assumed, their ensures proved
+	type implBinding struct {
+		ic    *Contract
+		names map[string]Val
+	}
+	var impls []implBinding
+	for _, ik := range c.Implements {
+		ic := p.specs.Contracts[ik]
+		if ic == nil {
+			panic(unsupported("implements: no contract " + ik))
+		}
+		names := map[string]Val{}
+		i := 0
+		for _, f := range ftype.Params.List {
+			for _, n := range f.Names {
+				pn := x.sig.Params().At(i).Name()
+				if i < len(ic.Params) {
+					pn = ic.Params[i]
+				}
+				if v, ok := x.entry[n.Name]; ok {
+					names[pn] = v
+				}
+				i++
+			}
+			if len(f.Names) == 0 {
+				i++
+			}
+		}
+		if v, ok := x.entry["self"]; ok {
+			names["self"] = v
+		}
+		ienv := x.specEnv(st, x.old, names, ic.PkgPath)
+		for _, rq := range ic.Requires {
+			x.assume(st, ienv.boolean(rq.Expr))
+		}
+		impls = append(impls, implBinding{ic, names})
+	}
 	entrySnap := st.clone()
 	x.old = entrySnap
 	// body
@@ -232,6 +269,7 @@ func (p *Program) verifyFunc(t *target) (vc *VC, rep *FuncReport) {
 	post := x.specEnv(final, entrySnap, names, c.PkgPath)
 	post.pos = body.Rbrace // top-level locals are visible in ensures: their value at the return (unconstrained where not yet declared)
 	x.evalLets(post, c)
+	var lemmaHyps []string
 	for i, en := range c.Ensures {
 		conj := splitConj(en.Expr)
 		// distribute a top-level implication over the conjuncts of its consequent: A ==> (B && C)
@@ -256,6 +294,32 @@ func (p *Program) verifyFunc(t *target) (vc *VC, rep *FuncReport) {
 				name += fmt.Sprintf(".%d", j+1)
 			}
 			x.assertNamed(final, name, "post", g, exprText(cj), token.Position{Filename: en.File, Line: en.Line})
+			if len(vc.obls) > 0 && len(lemmaHyps) > 0 {
+				vc.obls[len(vc.obls)-1].Extra = append([]string{}, lemmaHyps...)
+			}
+			if strings.HasPrefix(en.Label, "lemma") {
+				// a proved intermediate fact: available to the later clauses of this contract
+				lemmaHyps = append(lemmaHyps, implies(final.pc, g))
+			}
+		}
+	}
+	for _, ib := range impls {
+		names := map[string]Val{}
+		for k, v := range ib.names {
+			names[k] = v
+		}
+		if len(x.returns) > 0 {
+			x.bindResults(names, x.sig, resVals)
+		}
+		ienv := x.specEnv(final, entrySnap, names, ib.ic.PkgPath)
+		for i, en := range ib.ic.Ensures {
+			for j, cj := range splitConj(en.Expr) {
+				name := fmt.Sprintf("post.impl(%s).%d", ib.ic.Local, i+1)
+				if j > 0 {
+					name += fmt.Sprintf(".%d", j+1)
+				}
+				x.assertNamed(final, name, "post", ienv.boolean(cj), "implements "+ib.ic.Local+": "+exprText(cj), token.Position{Filename: en.File, Line: en.Line})
+			}
 		}
 	}
 	// vacuity probe: the end of the function must be reachable under the preconditions
